@@ -335,3 +335,30 @@ def make_cfg(name, spec=None, init=None, next=None, constants=None, invariants=(
     with open(path, "w") as fh:
         fh.write("\n".join(lines) + "\n")
     return path
+
+
+def run_tlc_many(module, cfg, nproc, simulate, depth, base_seed, **kw):
+    """Several single-worker TLC -simulate processes in parallel (different seeds); merged records."""
+    import concurrent.futures as cf
+    per = max(1, simulate // nproc)
+    with cf.ThreadPoolExecutor(max_workers=nproc) as ex:
+        futs = [ex.submit(run_tlc, module, cfg, workers=1, simulate=per, depth=depth, tlc_seed=base_seed * 1000 + i,
+                          deadlock=False, keep_stdout=False, **kw) for i in range(nproc)]
+        rs = [f.result() for f in futs]
+    out = TlcResult()
+    seen = set()
+    for r in rs:
+        for rec in r.records:
+            k = json.dumps(rec, sort_keys=True)
+            if k not in seen:
+                seen.add(k)
+                out.records.append(rec)
+        out.generated += r.generated
+        out.distinct += r.distinct
+        out.wall = max(out.wall, r.wall)
+        out.cmd = r.cmd
+        out.violated = out.violated or r.violated
+        if r.violated:
+            out.stdout = r.stdout
+    out.ok = True
+    return out
